@@ -22,6 +22,7 @@ func init() {
 		Rule{ID: "R12c", Doc: "upstream query built from scratch", Floor: 5, Run: r12c},
 		Rule{ID: "R12d", Doc: "ECS gating and encoding", Floor: 14, Run: r12d},
 		Rule{ID: "R09b", Doc: "Msg.Pack re-appends the popped OPT on every successful return (a response to an EDNS0 client keeps its OPT; shared with C09)", Floor: 14, AllVariants: true, Run: r09b},
+		Rule{ID: "R20g", Doc: "a raw record returned to its pool is reset completely: the OPT the proxy builds from a pooled record carries no stale TTL/flags (shared with C20)", Floor: 12, Run: r20g},
 	)
 }
 
